@@ -51,8 +51,7 @@ Inductive kind2 :=
 | K2Revert (ret : list bterm) (ctr : Z)
 | K2Halt (kd : Z) (ctr : Z)
 | K2Stuck (why : Z)
-| K2Fuel
-| K2Early.
+| K2Fuel.
 Record leaf2 := mkLeaf2 { l2_path : list cond; l2_kind : kind2 }.
 
 Definition ST_SPECIAL := 3.    (* precompile / cheatcode address *)
@@ -84,7 +83,6 @@ Definition leaf_of (fr : frame) (w : sworld) (ctr : Z) (s : sstate) (k : leaf_ki
     | LHalt kd => K2Halt kd ctr
     | LStuck why => K2Stuck why
     | LFuel => K2Fuel
-    | LBadJumpEarly => K2Early
     end.
 
 Definition with_path (s : sstate) (p : list cond) : sstate :=
@@ -123,7 +121,12 @@ Definition local_step (fr : frame) (w : sworld) (ctr : Z) (s : sstate) (i : inst
       let '(vt, vf) := visits_of j (ss_visits s) in
       let d := jumpi_decide ct cf vt vf loop in
       if d_follow_true d && negb (is_jumpdest (f_code fr) target) then
-        ([mkLeaf2 (ss_path s) K2Early], d_logged d)
+        (* invalid destination: see SymExec.sexec *)
+        let vis_f := (j, (vt, vf + 1)) :: ss_visits s in
+        let s_f := mkSS (S (ss_pc s)) rest (ss_mem s) (ss_store s) (ss_tstore s)
+                        ((c, false) :: ss_path s) vis_f (ss_ret s) in
+        let r2 := if d_symbolic d && d_follow_false d then rec fr w ctr s_f else ([], false) in
+        (mkLeaf2 ((c, true) :: ss_path s) (K2Halt H_BADJUMP ctr) :: fst r2, d_logged d || snd r2)
       else
         let vis_t := if d_symbolic d then (j, (vt + 1, vf)) :: ss_visits s else ss_visits s in
         let vis_f := if d_symbolic d then (j, (vt, vf + 1)) :: ss_visits s else ss_visits s in
